@@ -69,7 +69,9 @@ func init() {
 
 func checkC14(c *Ctx) {
 	o := &SemOpts{}
-	c.runSemFamily("FamOrder", "FamOrder_quick.cfg", o, 30*time.Minute)
+	if c.runSemFamily("FamOrder", "FamOrder_quick.cfg", o, 30*time.Minute) != nil {
+		c.traceValidate("order", c.lastFile, 1, 1500)
+	}
 	c.cov("exhaustive", true)
 	c.cov("rule", "FamOrder: side-effecting probes P(tag, v) in every operand position of every operator, call, array/object literal, index, property and store form (depth 1 and 2), assignments used as expressions, and a falsy and a truthy representative of every value kind (literal and computed) under if / ! / or / and / while / for; non-trivial = at least one probe tag printed")
 	semAssumptions(c)
@@ -103,7 +105,9 @@ func checkC04(c *Ctx) {
 	if c.Tier == "thorough" {
 		cfg = "FamCalls_thorough.cfg"
 	}
-	c.runSemFamily("FamCalls", cfg, o, 60*time.Minute)
+	if c.runSemFamily("FamCalls", cfg, o, 60*time.Minute) != nil {
+		c.traceValidate("calls", c.lastFile, 2, 1500)
+	}
 	c.cov("exhaustive", true)
 	c.cov("rule", "FamCalls: return (with value / bare / absent) at every nesting of if-then, if-else, block, while and for (hit in the first or a later iteration) up to CtxDepth; recursion (factorial with per-activation locals, fibonacci, mutual even/odd, Ackermann re-entering its own call site); every interleaving of <= HistLen calls to the two sibling closures of two counter instances; callee of every kind x 0..3 arguments; positional binding over all permutations of distinct arguments; functions stored in variables, arrays, objects and returned")
 	semAssumptions(c)
@@ -157,7 +161,9 @@ func checkC12(c *Ctx) {
 	if c.Tier == "thorough" {
 		cfg = "FamObjects_thorough.cfg"
 	}
-	c.runSemFamily("FamObjects", cfg, o, 60*time.Minute)
+	if c.runSemFamily("FamObjects", cfg, o, 60*time.Minute) != nil {
+		c.traceValidate("objects", c.lastFile, 4, 1500) // listing orders are resolved by the recorded run
+	}
 	c.cov("exhaustive", true)
 	c.cov("rule", "FamObjects: every history of <= HistLen object operations on two variables (literals with 0..3 keys in several orders, alias, write of new and existing keys, delete of present and absent keys, read of present and absent properties, nesting objects and arrays, write through a parameter), each optionally followed by one misuse (non-string key, `.` on number/array/string/nil, listing a non-object, arity), plus NRandom seeded random histories; after every step both objects are printed and keys/values are listed (keys twice): any listing order is accepted but it must be stable and keys and values must agree")
 	semAssumptions(c)
@@ -283,6 +289,70 @@ func (c *Ctx) traceValidate(name, path string, every, max int) {
 	})
 	runs := c.recordTraces(recs)
 	n := c.validateTraces(name, runs)
+	c.corruptionControls(name, runs)
 	tv, _ := c.Ev.Coverage["trace_validation"].([]interface{})
 	c.Ev.Coverage["trace_validation"] = append(tv, map[string]interface{}{"family": name, "recorded_runs": len(runs), "accepted_by_TraceSem": n})
+}
+
+// corruptionControls: "a spec nothing binds to the code" check - a recorded run with one corrupted field, one dropped
+// event or two swapped events must be REJECTED by TraceSem.  An accepted corruption is an infrastructure problem.
+func (c *Ctx) corruptionControls(name string, runs []*TraceRun) {
+	var pick *TraceRun
+	for _, r := range runs {
+		prints := 0
+		for _, e := range r.Events {
+			if e.Ev == "print" {
+				prints++
+			}
+		}
+		if prints >= 2 && r.Events[len(r.Events)-1].Status != "abnormal" {
+			pick = r
+			break
+		}
+	}
+	if pick == nil {
+		return
+	}
+	clone := func() *TraceRun {
+		b, _ := json.Marshal(pick.Events)
+		var ev []TraceEv
+		json.Unmarshal(b, &ev)
+		return &TraceRun{Prog: pick.Prog, Stdin: pick.Stdin, Repl: pick.Repl, Events: ev, key: pick.key}
+	}
+	firstPrint := func(r *TraceRun) int {
+		for i, e := range r.Events {
+			if e.Ev == "print" {
+				return i
+			}
+		}
+		return 0
+	}
+	a := clone() // one corrupted field
+	a.Events[firstPrint(a)].V = map[string]interface{}{"t": "str", "s": []int{99, 111, 114, 114, 117, 112, 116}}
+	b := clone() // one dropped event
+	i := firstPrint(b)
+	b.Events = append(b.Events[:i], b.Events[i+1:]...)
+	d := clone() // a duplicated event (an effect that the specification does not allow twice)
+	i = firstPrint(d)
+	d.Events = append(d.Events[:i+1], d.Events[i:]...)
+	rejected := 0
+	for _, r := range []*TraceRun{a, b, d} {
+		nv := len(c.Viol)
+		seen := c.violSeen
+		c.violSeen = map[string]int{}
+		ok := c.validateTraces("corruption-control", []*TraceRun{r})
+		c.Viol = c.Viol[:nv]
+		c.violSeen = seen
+		if ok == 0 {
+			rejected++
+		} else {
+			c.addInt("traces_checked_against_spec", -1)
+			c.addInt("traces_validated_against_impl", -1)
+		}
+	}
+	cc, _ := c.Ev.Coverage["trace_corruption_controls"].([]interface{})
+	c.Ev.Coverage["trace_corruption_controls"] = append(cc, map[string]interface{}{"family": name, "corrupted_traces": 3, "rejected_by_TraceSem": rejected})
+	if rejected != 3 {
+		c.infra("trace validation does not bind: %d of 3 corrupted traces of %s were accepted", 3-rejected, pick.key)
+	}
 }
